@@ -114,8 +114,17 @@ mod verif_app_wit {
         let mut state = json!([{"id": "with_grid", "grid_search": {"a": [1, 2]}}, {"id": "no_grid", "a": 7}]);
         let plugin = GridSearchPlugin {};
         let op: InputArrayOp = std::rc::Rc::new(|q| plugin.process(q));
-        json_array_op(&mut state, op).unwrap();
+        let mut errors: Vec<Value> = vec![];
+        json_array_op(&mut state, op, &mut errors).unwrap();
         assert_eq!(state, json!([{"id": "with_grid", "a": 1}, {"id": "with_grid", "a": 2}, {"id": "no_grid", "a": 7}]));
+        assert!(errors.is_empty());
+        // a query for which the operation fails leaves the list with its own error response; the others are processed all the same
+        let mut state = json!([{"id": "bad", "grid_search": {"a": []}}, {"id": "good", "grid_search": {"a": [3]}}]);
+        let op: InputArrayOp = std::rc::Rc::new(|q| plugin.process(q));
+        json_array_op(&mut state, op, &mut errors).unwrap();
+        assert_eq!(state, json!([{"id": "good", "a": 3}]));
+        assert_eq!(errors.len(), 1);
+        assert_eq!(errors[0]["request"]["id"], json!("bad"));
     }
 
     /// C12: identical origin and destination (the search returns one EMPTY route) -- answered with one response that echoes the request, no panic,
